@@ -159,6 +159,16 @@ theorem reserialize_fixpoint_loopback (l : Loopback) (p : Bytes) (b b2 : SBuf) (
     rw [hc2] at hby2
     exact ⟨o2, ho2, he2, by rw [hby2, hby]⟩
 
+/-- Observation (not part of the property): a big-endian capture (DLT_LOOP, `00 00 00 1e`) decodes to
+    the same Family as its little-endian form and is WRITTEN little-endian (`1e 00 00 00`): the
+    original byte order of a decoded header is not reproduced; the round trip of the written bytes
+    (`roundtrip_loopback`, `reserialize_fixpoint_loopback`) is exact. -/
+example :
+    decodeLoopbackView Loopback.fresh [0,0,0,30, 0x60] [] =
+      .ok ({ contents := [0,0,0,30], payload := [0x60], family := 30 }, false) ∧
+    (loSerSpec { contents := [0,0,0,30], payload := [0x60], family := 30 } [0x60]).bytes = [30,0,0,0, 0x60] := by
+  decide
+
 /-! ## ERSPAN II -/
 
 theorem decoded_wf_erspan2 (old : ERSPANII) (d : GSlice) (o : DecOut ERSPANII)
